@@ -24,7 +24,7 @@ func init() { core.Register(c20{}) }
 func (c20) ID() string    { return "C20" }
 func (c20) Level() string { return "fault_enumeration" }
 func (c20) Rule() string {
-	return "each scenario runs in a fresh tree base/{up/src, up/secret.txt, other/, dst}: a .dsc or .changes in up/src listing k=0..5 files. Operation in {Copy, Move, Remove} x handle in {.dsc, .changes} x fault: none; referenced file i missing (every i); destination name of file i occupied by a non-empty directory (every i and the control file itself); destination missing; destination a regular file; the copy of the control file itself cut short by a file-size limit (RLIMIT_FSIZE, EFBIG mid-way). Hostile listed names: ../secret.txt, sub/../../secret.txt, ../../other/o.txt, /abs/x, sub/inner.txt, and the directory-designating ../, ..//, ./, /, sub/, ../../other/, sub/.., mixed with plain names. Monitors: the kernel's ordered inotify queue of dst and src (control file appears only after every referenced file's close/move; deleted last), tree snapshots path->sha256 before/after (success: byte-identical files, handle points at the new location; failure: error returned, no control file in dst, for Move still at its source; always: everything outside up/src and dst unchanged, nothing in dst carries an outside file's content). Non-trivial = every scenario with k >= 1 or a fault; distinct by hash of the scenario."
+	return "each scenario runs in a fresh tree base/{up/src, up/secret.txt, other/, dst}: a .dsc or .changes in up/src listing k=0..5 files. Operation in {Copy, Move, Remove} x handle in {.dsc, .changes} x fault: none; referenced file i missing (every i); destination name of file i occupied by a non-empty directory (every i and the control file itself); destination missing; destination a regular file; the copy of the control file itself cut short by a file-size limit (RLIMIT_FSIZE, EFBIG mid-way). Hostile listed names: ../secret.txt, sub/../../secret.txt, ../../other/o.txt, /abs/x, sub/inner.txt, and the directory-designating ../, ..//, ./, /, sub/, ../../other/, sub/.., mixed with plain names; and the control file listing itself ahead of ordinary files. Monitors: the kernel's ordered inotify queue of dst and src (control file appears only after every referenced file's close/move; deleted last), tree snapshots path->sha256 before/after (success: byte-identical files, handle points at the new location; failure: error returned, no control file in dst, for Move still at its source; always: everything outside up/src and dst unchanged, nothing in dst carries an outside file's content). Non-trivial = every scenario with k >= 1 or a fault; distinct by hash of the scenario."
 }
 func (c20) Assumptions() []string {
 	return []string{"Linux inotify event order = order of appearance for a directory watcher", "RLIMIT_FSIZE makes write/copy_file_range fail with EFBIG exactly as a full disk would with ENOSPC"}
@@ -58,18 +58,18 @@ func (c20) Mandatory(tier string) []string {
 		m = append(m, "strace:syscalls-observed", "strace:dry-run:Copy", "strace:dry-run:Move", "strace:dry-run:Remove", "strace:injected:Copy", "strace:injected:Move", "strace:injected:Remove")
 	}
 	return append(m, "fault:Copy:control-copy-cut-short", "fault:Remove:missing-source", "k:0", "k:1", "k:2+", "order:copy-control-after-all-closed", "order:move-control-last",
-		"order:remove-control-last", "hostile:../secret.txt", "hostile:sub/../../secret.txt", "hostile:../../other/o.txt", "hostile:/abs/x", "hostile:sub/inner.txt", "hostile:../", "hostile:..//", "hostile:./", "hostile:/", "hostile:sub/", "hostile:../../other/", "hostile:sub/..", "inotify-events-seen", "dest-has-longer-files-of-the-same-names", "hostile:only-in-checksum-fields", "sequence:Copy then Remove", "sequence:Copy then Move", "sequence:Move then Remove", "sequence:Move then Move")
+		"order:remove-control-last", "hostile:../secret.txt", "hostile:sub/../../secret.txt", "hostile:../../other/o.txt", "hostile:/abs/x", "hostile:sub/inner.txt", "hostile:../", "hostile:..//", "hostile:./", "hostile:/", "hostile:sub/", "hostile:../../other/", "hostile:sub/..", "inotify-events-seen", "dest-has-longer-files-of-the-same-names", "hostile:only-in-checksum-fields", "hostile:control-file-lists-itself", "sequence:Copy then Remove", "sequence:Copy then Move", "sequence:Move then Remove", "sequence:Move then Move")
 }
 
 type c20Case struct {
-	Op     string   `json:"op"`
-	Handle string   `json:"handle"`
-	Names  []string `json:"names"` // listed names, in order
-	Fault  string   `json:"fault"` // none | missing-source:i | dest-occupied:i | dest-missing | dest-is-file | control-copy-cut-short
-	Pre    bool     `json:"pre,omitempty"` // the destination already holds (longer) files of the same names
+	Op       string   `json:"op"`
+	Handle   string   `json:"handle"`
+	Names    []string `json:"names"`              // listed names, in order
+	Fault    string   `json:"fault"`              // none | missing-source:i | dest-occupied:i | dest-missing | dest-is-file | control-copy-cut-short
+	Pre      bool     `json:"pre,omitempty"`      // the destination already holds (longer) files of the same names
 	SumNames []string `json:"sumnames,omitempty"` // names listed ONLY in Checksums-Sha1/-Sha256 (never in Files)
-	Then   string   `json:"then,omitempty"` // a second operation on the same handle after a successful first one: Remove | Move
-	Seed   uint64   `json:"seed"`
+	Then     string   `json:"then,omitempty"`     // a second operation on the same handle after a successful first one: Remove | Move
+	Seed     uint64   `json:"seed"`
 }
 
 type upload interface {
@@ -145,7 +145,7 @@ func (p c20) run(c *core.C, t *core.T, cs c20Case) {
 	os.WriteFile(ctlPath, []byte(sb.String()), 0o644)
 	plain := func(n string) bool { return !strings.ContainsAny(n, "/") }
 	for _, n := range cs.Names {
-		if plain(n) {
+		if plain(n) && n != ctlName {
 			write(filepath.Join(src, n), r.Range(0, 400))
 		}
 	}
@@ -317,6 +317,12 @@ func (p c20) run(c *core.C, t *core.T, cs c20Case) {
 	for _, n := range cs.Names {
 		if !plain(n) {
 			hostile = true
+		}
+		if n == ctlName {
+			// the control file lists itself: refusing is as good as treating it as the control file (last);
+			// what must not happen is that it travels as an ordinary member, ahead of the files after it
+			hostile = true
+			c.Cover("hostile:control-file-lists-itself")
 		}
 	}
 	expectFail := cs.Fault != "none"
@@ -573,6 +579,13 @@ func (p c20) RunBatch(t *core.T, b core.Batch) {
 			emit(c20Case{Op: op, Handle: h, Names: names, Fault: "none", Seed: r.U64()})
 			// a hostile name that appears only in the checksum fields, never in Files
 			emit(c20Case{Op: op, Handle: h, Names: plainNames(r, r.Range(1, 3)), SumNames: []string{hn}, Fault: "none", Seed: r.U64()})
+			if i%3 == 0 {
+				// the control file lists itself, in front of 1..3 ordinary files; alone, and with a later file missing
+				self := "pkg_1.0-1." + h
+				sn := append([]string{self}, plainNames(r, r.Range(1, 3))...)
+				emit(c20Case{Op: op, Handle: h, Names: sn, Fault: "none", Seed: r.U64()})
+				emit(c20Case{Op: op, Handle: h, Names: sn, Fault: fmt.Sprintf("missing-source:%d", len(sn)-1), Seed: r.U64()})
+			}
 		case "sequence":
 			first := []string{"Copy", "Move"}[i%2]
 			then := []string{"Remove", "Move"}[(i/2)%2]
